@@ -727,8 +727,7 @@ def d3_results(ctx, idx):
         results_body(r, idx)
 
 
-def results_body(r, idx):
-    ex = cm.extraction_facts(idx)
+def _cell_results(r, idx, ex):
     comp, selfn = ex.fi, ex.selfn
     # bounds
     want = {ex.row_idx.id: ('original_length', 'rows', 'len(cost_matrix)'),
@@ -808,6 +807,101 @@ def results_body(r, idx):
         r.check(not ex_, 'Munkres.compute: result loop over `%s`' % ('rows' if var == ex.row_idx.id else 'columns' if var == ex.col_idx.id else var),
                 'visits every index', 'the result loop is left early (%s): starred zeros after that point are not reported'
                 % (short(ex_[0]) if ex_ else ''), lib.loc(comp, node))
+
+
+def _field_value_ok(r, comp, selfn, field, what):
+    """self.original_length = len(cost_matrix) / self.original_width = len(cost_matrix[0])"""
+    vals = [s_ for s_ in walk_own(comp.node) if isinstance(s_, ast.Assign) and any(cm.is_self_attr(t, selfn, field) for t in s_.targets)]
+    pats = {'original_length': 'len(cost_matrix)', 'original_width': 'len(cost_matrix[0])'}
+    alt = {'original_length': 'len(cost_matrix[0])', 'original_width': 'len(cost_matrix)'}
+    c2 = 'Munkres.compute: self.%s' % field
+    if len(vals) != 1:
+        r.undecided(c2, 'assigned %d times' % len(vals), comp.loc)
+        return
+    v = vals[0].value
+    if nf.match(pats[field], v) is not None:
+        r.ok(c2, pats[field], lib.loc(comp, vals[0]))
+    elif nf.match(alt[field], v) is not None:
+        r.violation(c2, 'number of %s taken from `%s`: rows and columns of the argument are confused' % (what, short(v)),
+                    lib.loc(comp, vals[0]), expected=pats[field], found=short(v))
+    elif any(cm.is_self_attr(n, selfn, 'n') or cm.is_self_attr(n, selfn, 'C') for n in ast.walk(v)):
+        r.violation(c2, 'taken from the padded matrix (`%s`) instead of the argument' % short(v), lib.loc(comp, vals[0]),
+                    expected=pats[field], found=short(v))
+    else:
+        r.verdict(c2, nf.classify(pats[field], v), lib.loc(comp, vals[0]), expected=pats[field])
+
+
+def _row_star_results(r, idx, ex):
+    """Result extraction written as: for every row i of the caller's matrix take the column of its star, keep the pair when
+    that column lies inside the caller's matrix.  (Equivalent to scanning the cells: the solved matrix has one star per row.)"""
+    comp, selfn = ex.fi, ex.selfn
+    where = lib.loc(comp, ex.collection)
+    # rows
+    construct = 'Munkres.compute: result loop over rows'
+    b = ex.row_bound
+    if cm.is_self_attr(b, selfn, 'original_length'):
+        r.ok(construct, 'range(self.original_length)', where)
+    elif cm.is_self_attr(b, selfn, 'n'):
+        r.violation(construct, 'the rows run over the padded size `%s`: pairs in padding rows are returned' % short(b), where,
+                    expected='range(self.original_length)', found=short(b))
+    elif cm.is_self_attr(b, selfn, 'original_width'):
+        r.violation(construct, 'rows are bounded by the number of columns (self.original_width): for a rectangular matrix rows are lost or '
+                    'padding rows are reported', where, expected='range(self.original_length)', found=short(b))
+    else:
+        r.undecided(construct, 'row bound `%s`' % short(b), where)
+    _field_value_ok(r, comp, selfn, 'original_length', 'rows')
+    # columns
+    construct = 'Munkres.compute: result loop over columns'
+    cb = ex.col_bound
+    if cb is None:
+        r.violation(construct, 'pairs whose star lies in a padding column are not filtered out: a row of a tall matrix is reported '
+                    'with a column that does not exist in the caller\'s matrix', where, expected='j < self.original_width')
+    elif ex.col_op not in ('<',):
+        r.undecided(construct, 'column filter `%s`' % short(ex.col_filter), where)
+    elif cm.is_self_attr(cb, selfn, 'original_width'):
+        r.ok(construct, 'kept when the column < self.original_width', where)
+    elif cm.is_self_attr(cb, selfn, 'original_length'):
+        r.violation(construct, 'the padding-column filter `%s` bounds the *column* by the number of *rows* (self.original_length): rows and '
+                    'columns are mixed up -- for a wide matrix stars in the columns beyond the row count are dropped (too few pairs), for a '
+                    'tall matrix stars in padding columns are returned (column index outside the caller\'s matrix)' % short(ex.col_filter),
+                    where, expected='j < self.original_width', found=short(ex.col_filter))
+    elif cm.is_self_attr(cb, selfn, 'n'):
+        r.violation(construct, 'the column filter `%s` uses the padded size: stars in padding columns are returned' % short(ex.col_filter),
+                    where, expected='j < self.original_width', found=short(ex.col_filter))
+    else:
+        r.undecided(construct, 'column bound `%s`' % short(cb), where)
+    _field_value_ok(r, comp, selfn, 'original_width', 'columns')
+    # which mark
+    construct = 'Munkres.compute: star test'
+    if ex.finder == '__find_star_in_row':
+        r.ok(construct, 'the column of the star of each row (__find_star_in_row)', where)
+    elif ex.finder == '__find_prime_in_row':
+        r.violation(construct, 'primed instead of starred zeros are reported (__find_prime_in_row)', where)
+    else:
+        r.undecided(construct, 'column taken from `%s`' % ex.finder, where)
+    construct = 'Munkres.compute: emitted pair'
+    if ex.pair_order == 'row-col':
+        r.ok(construct, '(row, column)', where)
+    elif ex.pair_order == 'col-row':
+        r.violation(construct, 'pairs are emitted as (column, row): callers index their matrix with the roles exchanged', where)
+    else:
+        r.undecided(construct, 'pair `%s`' % short(ex.pair), where)
+    if ex.bad_returns:
+        for ret in ex.bad_returns:
+            r.violation('Munkres.compute: return', 'compute returns `%s`, not the collected pairs' % short(ret.value), lib.loc(comp, ret))
+    else:
+        r.ok('Munkres.compute: return', 'returns the collected pairs', where)
+    r.ok('Munkres.compute: result loop over `rows`', 'every row of the caller\'s matrix is visited (generator over range)', where)
+    r.ok('Munkres.compute: result loop over `columns`', 'the finder scans the whole row', where)
+
+
+def results_body(r, idx):
+    ex = cm.extraction_facts(idx)
+    comp, selfn = ex.fi, ex.selfn
+    if getattr(ex, 'layout', 'cells') == 'row-star':
+        _row_star_results(r, idx, ex)
+    else:
+        _cell_results(r, idx, ex)
     # padding value and squareness of the padded matrix (symbolic sizes, cases r<c, r=c, r>c)
     _pad_value(r, idx, comp, selfn)
     pad_mod.check_pad_shape(r, idx)
@@ -963,6 +1057,11 @@ _S5_NEW = ("        path = self.path\n        path[0][0] = self.Z0_r\n        pa
            "            path[count + 1][0] = star_row\n            path[count + 1][1] = %s\n            path[count + 2][0] = star_row\n"
            "            path[count + 2][1] = self.__find_prime_in_row(star_row)\n            count += 2\n")
 
+_RES_OLD = ("        results = []\n        for i in range(self.original_length):\n            for j in range(self.original_width):\n"
+            "                if self.marked[i][j] == 1:\n                    results += [(i, j)]\n\n        return results\n")
+_RES_ROWSTAR = ("        stars = ((i, self.__find_star_in_row(i)) for i in range(self.original_length))\n"
+                "        return [(i, j) for (i, j) in stars if 0 <= j < self.%s]\n")
+
 MUTANTS = [
     Mutant('row-aliased', MK, "            new_row = row[:]\n", "            new_row = row\n", 'D1'),
     Mutant('pad-bypassed', MK, "        self.C = self.pad_matrix(cost_matrix)\n", "        self.C = cost_matrix\n", 'D1'),
@@ -1044,6 +1143,9 @@ MUTANTS = [
     Mutant('find-smallest-zip-for-cross-product', MK, _FS_OLD, _FS_ZIP, 'D4'),
     Mutant('find-smallest-assignment-for-fold', MK, _FS_OLD, _FS_ROWS % 'min(vals)', 'D4'),
     Mutant('step5-star-column-from-Z0', MK, _S5_OLD, _S5_NEW % 'self.Z0_c', 'D4'),
+    # wave 6
+    Mutant('row-star-extraction-filters-columns-by-row-count', MK, _RES_OLD, _RES_ROWSTAR % 'original_length', 'D3'),
+    Mutant('row-star-extraction-over-padded-rows', MK, _RES_OLD, (_RES_ROWSTAR % 'original_width').replace('range(self.original_length)', 'range(self.n)'), 'D3'),
     Mutant('step1-subtracts-max', MK, "            minval = min(vals)", "            minval = max(vals)", 'D4'),
     Mutant('step1-subtracts-twice', MK, "                    self.C[i][j] -= minval\n        return 2", "                    self.C[i][j] -= 2 * minval\n        return 2", 'D4'),
     Mutant('step2-covers-not-cleared', MK, "        self.__clear_covers()\n        return 3\n\n    def __step3", "        return 3\n\n    def __step3", 'D4'),
@@ -1115,6 +1217,7 @@ BENIGN = [
     Benign('find-smallest-cross-product-of-index-lists', MK, _FS_OLD, _FS_CROSS),
     Benign('find-smallest-per-row-fold', MK, _FS_OLD, _FS_ROWS % 'min(minval, min(vals))'),
     Benign('step5-offsets-from-counter', MK, _S5_OLD, _S5_NEW % 'path[count][1]'),
+    Benign('row-star-extraction', MK, _RES_OLD, _RES_ROWSTAR % 'original_width'),
     Benign('step6-by-cases', MK, "                if self.row_covered[i]:\n                    self.C[i][j] += minval\n                    events += 1\n                if not self.col_covered[j]:\n                    self.C[i][j] -= minval\n                    events += 1\n                if self.row_covered[i] and not self.col_covered[j]:\n                    events -= 2 # change reversed, no real difference\n",
            "                if self.row_covered[i] and self.col_covered[j]:\n                    self.C[i][j] += minval\n                    events += 1\n                elif not self.row_covered[i] and not self.col_covered[j]:\n                    self.C[i][j] -= minval\n                    events += 1\n"),
     Benign('find-smallest-de-morgan', MK, "                if (not self.row_covered[i]) and (not self.col_covered[j]):\n                    if self.C[i][j] is not DISALLOWED and minval >",
